@@ -2005,6 +2005,7 @@ class ModelsOps:
             # Term(<slice of the items of an abstract term>): the term those items denote
             r = TermV(items_v.mag, dict(items_v.dims), items=None, normalized=False, origin=items_v.origin)
             r.empty = items_v.empty
+            r.part_of = getattr(items_v, "part_of", None)
             r.num_choice = 0            # the items after the numeric element: none of them is numeric
             r.pure = True
             return r
@@ -2043,7 +2044,27 @@ class ModelsOps:
                 I.unsupported(node, f"term element {elem!r}")
         return TermV(mag, dims, items=items)
 
+    def mark_dimensionless(self, t: TermV):
+        """The term's dimensions cancel on this path: no unit is, or will ever be, registered for it (nor for the
+        term it is the normal form of)."""
+        todo, seen = [t], []
+        while todo:
+            x = todo.pop()
+            if not isinstance(x, TermV) or any(x is y for y in seen):
+                continue
+            seen.append(x)
+            dk_ = tuple(sorted((self.st.tfind(k_), e_) for k_, e_ in self.norm_dims(x.dims).items() if e_ != (0, 0)))
+            self.st.rf_table_set("never", (x.mag,), dk_, True)
+            todo += [getattr(x, "norm_of", None), getattr(x, "part_of", None)]
+
     def term_is_empty(self, t: TermV, node) -> bool:
+        was_open = t.empty is None
+        r = self._term_is_empty(t, node)
+        if was_open and r:
+            self.mark_dimensionless(t)
+        return r
+
+    def _term_is_empty(self, t: TermV, node) -> bool:
         if t.empty is None:
             can_zero, must_zero = self.dims_zero(t)
             if must_zero and t.items is not None and not t.items:
@@ -2131,7 +2152,8 @@ class ModelsOps:
                 else:
                     t.nu = self.st.norm(t.mag / P)
             elif c == 1:
-                t.nu = RF.atom(("nu", self.st.fresh("nu")))
+                # (the numeric factor of a term is a function of the term)
+                t.nu = RF.atom(("nu", self.st.fresh_keyed("nu", (t.mag,), tuple(sorted(self.norm_dims(t.dims).items())))))
         if t.num_choice == 0:
             return NONE
         # the numeric element of a term keeps the type it was given with (a plain int stays an int)
@@ -2188,14 +2210,12 @@ class ModelsOps:
         dflt = args[0] if args else Num(RF.const(1), "dec")
         if o == "empty-remainder":
             # the dimensions cancel: no unit is or will ever be registered for this term
-            self.st.never_found.add((self.st.norm(t.mag).key(),
-                                     tuple(sorted((self.st.tfind(k_), e_) for k_, e_ in self.norm_dims(t.dims).items()
-                                                  if e_ != (0, 0)))))
+            self.mark_dimensionless(t)
             rest = TermV(RF.const(1), {}, items=[], normalized=True)
             rest.empty = True
             return TupleV([Num(t.mag, "exact"), rest])
         if o == "numeric+remainder":
-            nu = RF.atom(("nu", self.st.fresh_keyed("nu", (self.st.norm(t.mag).key(), tuple(sorted(self.norm_dims(t.dims).items()))))))
+            nu = RF.atom(("nu", self.st.fresh_keyed("nu", (t.mag,), tuple(sorted(self.norm_dims(t.dims).items())))))
             rest = TermV(t.mag / nu, dict(t.dims), normalized=True, origin=("split", id(t)))
             rest.empty = False
             return TupleV([Num(nu, "exact"), rest])
@@ -2351,7 +2371,7 @@ class ModelsOps:
                 ex.tag = "rate-validation"
                 raise AbsRaise(ex)
         # the normalising power of ten is a function of the given amount and multiple
-        m = RF.atom(("pw10", st.fresh_keyed("m", (st.norm(um_in.rf).key(), st.norm(ta_in.rf).key()))))
+        m = RF.atom(("pw10", st.fresh_keyed("m", (um_in.rf, ta_in.rf))))
         ta = st.rnd(6, ta_in.rf * m / um_in.rf)
         r = RateV(uc, tc, Num(m, "dec"), Num(ta, "dec"), name=st.fresh("rate"))
         r.fresh = True
